@@ -251,7 +251,8 @@ def _e2e_growing(st):
                         tally[p_] += 1
                     g = Counter()
                     for k_, v_ in cr.GLOBAL_PRIOR_COMB_COUNTS.items():
-                        g[frozenset(k_)] += v_
+                        if v_:
+                            g[frozenset(k_)] += v_
                     if dict(g) != dict(tally):
                         fails.append(f'batch {b}: reported counts { {tuple(sorted(k_)): v_ for k_, v_ in g.items()} } != batches in which each pair was evaluated { {tuple(sorted(k_)): v_ for k_, v_ in tally.items()} }')
                         break
